@@ -5,6 +5,7 @@ path, including `consume`) is modelled as the standard library implements it. -/
 namespace Model
 
 inductive WOut | ok | timeout | hard | closed
+  | gate   -- the call blocks (until released by the script or the connection is closed)
 deriving DecidableEq, Repr
 
 /-- one `conn.Write` call: how many bytes are accepted at most, and the outcome.
@@ -29,6 +30,7 @@ def WConn.write (c : WConn) (p : Bytes) : WConn × Nat × WOut :=
   | e :: rest =>
     match e.out with
     | .ok => ({ policy := rest, log := c.log ++ p, writes := c.writes + 1 }, p.length, .ok)
+    | .gate => (c, 0, .gate)    -- nothing happens until the gate opens; the entry stays
     | o =>
       let n := min e.accept p.length
       ({ policy := rest, log := c.log ++ p.take n, writes := c.writes + 1 }, n, o)
